@@ -70,8 +70,8 @@ MUTANTS = [
      "            minerror = np.abs((left.value-left.error)*(right.value-right.error) - value)\n            error = np.max([maxerror,minerror])",
      "            minerror = (left.value-left.error)*(right.value-right.error) - value\n            error = np.max([maxerror,minerror]) if np.all(value > 0) else np.min([maxerror,minerror])"),
     ("C08", "exact_plus_exact_gets_zero_error", U + "magnitude.py",
-     "        if left.error is None and right.error is None:\n            error = None\n        elif left.error is None and right.error is not None:\n            error = right.error * left.value",
-     "        if left.error is None and right.error is None:\n            error = 0.0\n        elif left.error is None and right.error is not None:\n            error = right.error * left.value"),
+     "        if left.error is None and right.error is None:\n            error = None\n        elif left.error is None and right.error is not None:\n            error = right.error * np.abs(left.value)",
+     "        if left.error is None and right.error is None:\n            error = 0.0\n        elif left.error is None and right.error is not None:\n            error = right.error * np.abs(left.value)"),
 ]
 
 
